@@ -53,7 +53,8 @@ def rule_rule(c, prog):
     loops = _for_loops(fn.body)
     outer = [(n, f) for n, f in loops if "ref_rewrites" in core.place_root(f[1])[1]]
     if len(outer) != 2:
-        raise core.AnchorMissing(f"rewrite_refs: expected two loops over self.ref_rewrites, found {len(outer)}")
+        c.violation(R, "passes", f"rewrite_refs has {len(outer)} pass(es) over self.ref_rewrites; the rule `kept iff the destination contained it before rewriting` needs the set of pre-existing destination refs to be complete before the first value is rewritten, i.e. a collecting pass followed by a rewriting pass", fn.sp, instance="loops-over-ref_rewrites")
+        return
     c.ok(R, "loops-over-ref_rewrites", 2)
     # role: the `existing` set = the set local that receives insert() / extend() in loop 1
     l1, l2 = outer[0][1], outer[1][1]
